@@ -33,6 +33,7 @@ func init() {
 	register(chanendScn{})
 	register(windowScn{})
 	register(rpcScn{})
+	register(cutScn{})
 }
 
 // RunOpts are per-execution options that do not belong to the plan.
@@ -65,8 +66,10 @@ type Report struct {
 	Log          []string          `json:"log,omitempty"`
 	Blocked      []string          `json:"blocked,omitempty"`
 	Panics       []string          `json:"panics,omitempty"`
+	ReplayPlan   any               `json:"-"` // when set, the plan that reproduces this report (enumerating scenarios)
 	pairs        map[uint64]struct{}
 	sites        map[int32]struct{}
+	subRuns      int
 }
 
 func newReport(res *simrt.Result) *Report {
@@ -98,6 +101,33 @@ var simpoolStats struct{ gets, reuses int64 }
 func init() {
 	// capture pool statistics before they are reset at the end of a run
 	simrt.OnReset(func() {})
+}
+
+// newReportMerge starts an accumulated report from a first one.
+func newReportMerge(first *Report) *Report {
+	r := &Report{Counts: map[string]int64{}, pairs: map[uint64]struct{}{}, sites: map[int32]struct{}{}}
+	r.merge(first)
+	r.LogHash, r.SchedHash = first.LogHash, first.SchedHash
+	return r
+}
+
+func (r *Report) merge(o *Report) {
+	r.Steps += o.Steps
+	r.Switches += o.Switches
+	r.SimUs += o.SimUs
+	r.Tasks = max(r.Tasks, o.Tasks)
+	for k, v := range o.Counts {
+		r.Counts[k] += v
+	}
+	for k := range o.pairs {
+		r.pairs[k] = struct{}{}
+	}
+	for k := range o.sites {
+		r.sites[k] = struct{}{}
+	}
+	r.SchedHash = (r.SchedHash ^ o.SchedHash) * 1099511628211
+	r.LogHash = (r.LogHash ^ o.LogHash) * 1099511628211
+	r.subRuns++
 }
 
 func (r *Report) violate(rule, f string, a ...any) {
@@ -161,6 +191,7 @@ type Summary struct {
 	Property     string            `json:"property"`
 	Seed0        uint64            `json:"seed0"`
 	Runs         int               `json:"runs"`
+	SubRuns      int               `json:"sub_runs"`
 	Steps        int64             `json:"steps"`
 	Switches     int64             `json:"switches"`
 	SimUs        int64             `json:"sim_us"`
@@ -211,6 +242,7 @@ func TestSim(t *testing.T) {
 		o := RunOpts{KeepLog: *fVerbose, CheckGoid: *fCheckG > 0 && i%*fCheckG == 0}
 		rep := scn.Run(t, seed, plan, o)
 		sum.Runs++
+		sum.SubRuns += max(rep.subRuns, 1)
 		sum.Steps += rep.Steps
 		sum.Switches += rep.Switches
 		sum.SimUs += rep.SimUs
@@ -251,6 +283,9 @@ func TestSim(t *testing.T) {
 			sum.Rules[rule]++
 			// keep at most a few replays per rule per worker
 			if sum.Rules[rule] <= 2 {
+				if rep.ReplayPlan != nil {
+					plan = rep.ReplayPlan
+				}
 				path := minimiseAndWrite(t, scn, seed, plan, rep)
 				sum.Violations = append(sum.Violations, path)
 			}
